@@ -27,7 +27,7 @@ POLICIES = ["lf", "cr", "crlf", "lf_crlf", "cr_crlf"]
 MODES = ["eager", "lazy"]
 INITS = [(0, 1, 1), (0, 3, 1), (7, 3, 5), (100, 1, 1), (0, 1, 4)]
 MAXK = 12          # harness limit (template parameter of rep<>)
-WAYS = ("bump", "error", "parse")
+WAYS = ("bump", "error", "parse", "until")
 
 # ----------------------------------------------------------------------------- oracle
 # From the property text and doc/Inputs-and-Parsing.md only.
@@ -315,7 +315,7 @@ def evaluate(ctx, impl_lines, model_lines, ncases):
         if seen_ways.get(k, set()) != set(WAYS):
             missing += 1
             if missing <= 5:
-                ctx.diff("implementation did not report all of W=bump,error,parse", " ".join(str(x) for x in k),
+                ctx.diff("implementation did not report all of W=bump,error,parse,until", " ".join(str(x) for x in k),
                          impl=",".join(sorted(seen_ways.get(k, set()))), model=",".join(WAYS))
     diffs += missing
     # ---- violations
@@ -362,7 +362,7 @@ def run(ctx):
              "under eol::cr_crlf the line after CRLF starts at the LF; both follow from line_begin by Eol::ch and line_end by eolf")
     ctx.cover(evaluations=len(impl_lines), distinct=nontrivial, validated=validated,
               rule="every (tracking mode, eol policy, initial counters in %s, data, k in 0..size): data = all strings over {x,LF,CR} up to length %d "
-                   "plus fixed witnesses plus %d CRLF-rich seeded strings of length 7..%d; the position is obtained three ways (bump, action during parse, parse_error); "
+                   "plus fixed witnesses plus %d CRLF-rich seeded strings of length 7..%d; the position is obtained four ways (bump, action during parse over rep< K, any >, parse_error, action after the one-argument until< Cond > skipped K bytes); "
                    "non-trivial = (policy, data, k) whose line is not the whole data" % (INITS, 6 if ctx.tier == "thorough" else 5,
                                                                                          400 if ctx.tier == "thorough" else 60, MAXK),
               samples=cases[:2] + cases[len(cases) // 2:len(cases) // 2 + 2] + cases[-2:],
